@@ -509,6 +509,8 @@ func runC13(r *Run, replay *Case) {
 			c13NameClash(r)
 		case "missingstep":
 			c13MissingStep(r)
+		case "varindex":
+			c13VarIndex(r)
 		case "conv":
 			d := map[string]any{}
 			for _, a := range c13Args {
@@ -561,6 +563,7 @@ func runC13(r *Run, replay *Case) {
 	c13TypeAlternation(r)
 	c13NameClash(r)
 	c13MissingStep(r)
+	c13VarIndex(r)
 	// built-in-only pipe chains: real engine vs the Lean pipe interpreter (parsePipeExpr / evalPipe / callBuiltin), byte for byte
 	heads := []string{"s", "t", "e", "n", "lst", "obj.k", "st.Y", "missing", "'lit'", "upper(s)", "len(lst)", "digits"}
 	segs := []string{"upper", "lower", "trim", "len", "string", "escape", "default('d')", "default(t)", "default(missing)", "default('')", "default(\"s\")", "default('t')", "default(\"a, b\")", "default(\"it's, x\")", "default('5\", w') | upper", "nosuch", "upper(1)", "default", "upper()"}
@@ -692,4 +695,66 @@ func c13MissingStep(r *Run) {
 			}
 		}
 	}
+}
+
+// bracketed steps whose index or key is a VARIABLE (`lst[i]`, `obj[key]`) or a key of a container that is not keyed by strings (`byID[7]`):
+// the conventional value — the element — in every position, the same in all of them
+func c13VarIndex(r *Run) {
+	env := map[string]any{"lst": []any{10, 20, 30}, "names": []string{"ann", "bob", "cid"}, "i": 1, "obj": map[string]any{"k": "kv", "num": 5}, "key": "k",
+		"byID": map[int]string{7: "seven", 8: "eight"}, "grid": []any{[]any{1, 2}, []any{3, 4}}, "j": 0}
+	type ve struct{ expr, want string }
+	for _, e := range []ve{{"lst[i]", "20"}, {"names[i]", "bob"}, {"obj[key]", "kv"}, {"byID[7]", "seven"}, {"grid[i][j]", "3"}, {"names[j]", "ann"}} {
+		for _, pos := range []string{"text", "attr", "if", "elseif", "show", "class", "loop-text"} {
+			var tpl string
+			switch pos {
+			case "text":
+				tpl = "<p>[[{{ " + e.expr + " }}]]</p>"
+			case "attr":
+				tpl = `<p :data-v="` + e.expr + `">[[]]</p>`
+			case "if":
+				tpl = `<p v-if="` + e.expr + ` == '` + e.want + `' || ` + e.expr + ` == ` + c13NumOr(e.want) + `">[[T]]</p><p v-else>[[F]]</p>`
+			case "elseif":
+				tpl = `<p v-if="nope">n</p><p v-else-if="` + e.expr + `">[[T]]</p><p v-else>[[F]]</p>`
+			case "show":
+				tpl = `<p v-show="` + e.expr + `">[[]]</p>`
+			case "class":
+				tpl = `<p :class="{on: ` + e.expr + `}">[[]]</p>`
+			case "loop-text":
+				tpl = `<ul><li v-for="(idx, x) in names">[[{{ lst[idx] }}={{ names[idx] }}]]</li></ul>`
+			}
+			res := renderPage(map[string]string{"p.vuego": tpl}, "p.vuego", env)
+			c := &Case{Name: "variable index " + e.expr + " in " + pos, Input: map[string]any{"stream": "varindex", "expr": e.expr, "pos": pos, "tpl": tpl}, Impl: res.canon(), Oracle: &Verdict{OK: true},
+				Key: "varindex|" + e.expr + "|" + pos, Tags: []string{"stream:varindex", "pos:" + pos}}
+			bad := ""
+			switch {
+			case res.Err != "" || res.Panic != "" || res.Timeout:
+				bad = fmt.Sprintf("render failed: %+v", res)
+			case pos == "text" && !strings.Contains(res.Out, "[["+e.want+"]]"):
+				bad = "text"
+			case pos == "attr" && !strings.Contains(res.Out, `data-v="`+e.want+`"`):
+				bad = "bound attribute"
+			case (pos == "if" || pos == "elseif") && !strings.Contains(res.Out, "[[T]]"):
+				bad = "condition"
+			case pos == "show" && strings.Contains(res.Out, "display:none"):
+				bad = "v-show"
+			case pos == "class" && !strings.Contains(res.Out, `class="on"`):
+				bad = "class object"
+			case pos == "loop-text" && !strings.Contains(strings.Join(strings.Fields(res.Out), ""), "[[10=ann]]</li><li>[[20=bob]]</li><li>[[30=cid]]"):
+				bad = "loop text"
+			}
+			if bad != "" {
+				c.Oracle = &Verdict{OK: false, Class: "variable-index-value:" + pos, Detail: fmt.Sprintf("%s (%s): %s has the value %s, the render gives %q", tpl, bad, e.expr, e.want, res.Out)}
+			}
+			r.Add(c)
+		}
+	}
+}
+
+func c13NumOr(s string) string {
+	for _, ch := range s {
+		if ch < '0' || ch > '9' {
+			return "-1"
+		}
+	}
+	return s
 }
